@@ -78,10 +78,19 @@ var props = []PropSpec{
 		}, codecAssumptions...),
 		Harnesses: []HarnessSpec{
 			{Func: "Check_DataPacket", Reach: []string{"error", "message", "records", "two-records", "refused-for-cause"},
-				Tune: func(c *sym.Config, th bool) { c.HangIsViolation = true; c.InstrBudget = 2_000_000; c.AllocLimit = 200_000 },
+				Tune: func(c *sym.Config, th bool) {
+					c.HangIsViolation = true
+					c.InstrBudget = 2_000_000
+					c.AllocLimit = 200_000
+				},
 				Bounds: "every byte of the packet symbolic (header, set header, body); packet length 0..20+B with B = 12 (quick) / 24 (thorough) for fixed-width templates and 6 / 9 for templates with a variable-length field; templates: zero fields, each of 14 single-field shapes (incl. unknown elements of length 0, 3, variable), 11 (quick) / 36 pairs + 64 triples (thorough) multi-field layouts; x 3 decoding modes"},
 			{Func: "Check_TemplatePacket", Reach: []string{"error", "message", "zero-fields", "one-field", "several-fields", "invalidated-or-other-key"},
-				Tune: func(c *sym.Config, th bool) { c.HangIsViolation = true; c.InstrBudget = 2_000_000; c.LazyMake = true; c.AllocLimit = 200_000 },
+				Tune: func(c *sym.Config, th bool) {
+					c.HangIsViolation = true
+					c.InstrBudget = 2_000_000
+					c.LazyMake = true
+					c.AllocLimit = 200_000
+				},
 				Bounds: "set id 2, version 10 assumed; every other byte symbolic; packet length 16..20+B, B = 12 (quick) / 20 (thorough); x 3 decoding modes x {no older template, older template for (7,300)}; 16-bit field count kept symbolic through a lazily sized slice"},
 		},
 	},
@@ -152,7 +161,7 @@ var props = []PropSpec{
 		}, codecAssumptions...),
 		Harnesses: []HarnessSpec{
 			{Func: "Check_Step", Reach: []string{"record", "scan", "callback-failed", "inactive-expiry-removes", "active-expiry-keeps", "not-ready", "expiry", "expiry-empty"},
-				Tune: func(c *sym.Config, th bool) { c.ClockMode = "frozen" },
+				Tune:   func(c *sym.Config, th bool) { c.ClockMode = "frozen" },
 				Bounds: "0..2 (quick) / 0..3 (thorough) flows with symbolic active/inactive deadlines, readiness and retry count; one step: record for an existing or new key, expiry scan with the callback failing on any subset of keys, or GetExpiryFromExpirePriorityQueue"},
 		},
 	},
@@ -166,7 +175,7 @@ var props = []PropSpec{
 		}, codecAssumptions...),
 		Harnesses: []HarnessSpec{
 			{Func: "Check_History", Reach: []string{"correlation-required", "no-correlation", "withheld", "merged", "exported", "retried", "dropped-after-retries"},
-				Tune: func(c *sym.Config, th bool) { c.ClockMode = "frozen" },
+				Tune:   func(c *sym.Config, th bool) { c.ClockMode = "frozen" },
 				Bounds: "histories of 3 (quick) / 4 (thorough) events from {record from source node, record from destination node, expiry scan after all deadlines} on one flow; flow type, egress and ingress rule action symbolic over all 256 values each"},
 		},
 	},
@@ -179,10 +188,10 @@ var props = []PropSpec{
 		}, codecAssumptions...),
 		Harnesses: []HarnessSpec{
 			{Func: "Check_Schedule", Reach: []string{"refresh", "data-accepted", "data-rejected", "fired", "expired", "used-after-ttl-before-timer-ran", "callback-found-refreshed-template", "done"},
-				Tune: func(c *sym.Config, th bool) { c.ClockMode = "frozen" },
+				Tune:   func(c *sym.Config, th bool) { c.ClockMode = "frozen" },
 				Bounds: "all schedules of depth 5 (quick) / 6 (thorough) over {template/refresh, bad template, data, advance by symbolic d, fire a due armed timer, run a pending callback} on 2 keys (two template ids of one observation domain); all timing relations are the solver's"},
 			{Func: "Check_ScheduleAfterLifetime", Reach: []string{"refresh", "expired", "fired", "callback-found-refreshed-template", "done"},
-				Tune: func(c *sym.Config, th bool) { c.ClockMode = "frozen" },
+				Tune:   func(c *sym.Config, th bool) { c.ClockMode = "frozen" },
 				Bounds: "schedules that start with a template for the first key and an arbitrary advance, followed by all sequences of 4 (quick) / 5 (thorough) further events (total depth 6 / 7)"},
 		},
 	},
@@ -249,20 +258,40 @@ var props = []PropSpec{
 	},
 	{
 		ID: "C13", Pkg: "./c13", Level: "other", NoNativeBuild: true,
-		Explanation: "SUFFICIENT CONDITION, not schedules. What an SMT-based symbolic execution can decide about thread safety is the lock discipline the code relies on: every public operation of AggregationProcess (AggregateMsgByFlowKey with one and two records, ForAllExpiredFlowRecordsDo, ForAllRecordsDo, GetRecords with and without key, GetNumFlows, GetExpiryFromExpirePriorityQueue) is executed symbolically from bounded arbitrary states (0..1 flows quick, 0..2 thorough; symbolic records; deadlines passed or not; failing and succeeding callbacks) so that every feasible path, error paths included, is walked; every load, store and map operation on an object reachable from the process at entry is logged with the set of process mutexes held. The lockset rule is then applied across operations (each may run concurrently with every other and with itself): two accesses to one shared location, at least one a write, not both atomic, without a common lock = VIOLATION; also: a mutex still held at return, a mutex re-acquired while held, unlock of an unlocked mutex. With mutual exclusion trusted this gives atomic operations, hence linearizability with the lock acquisition as linearization point, and reduces 'no lost delta, no double export' to the sequential properties C05/C06. NOT covered: schedules are not enumerated; the Go memory model, sync.RWMutex and the race detector are trusted; the worker pool enters only through the fact that every worker runs AggregateMsgByFlowKey.",
+		Explanation: "SUFFICIENT CONDITION plus bounded schedule enumeration for pairs of operations. (a) What an SMT-based symbolic execution can decide about thread safety is the lock discipline the code relies on: every public operation of AggregationProcess (AggregateMsgByFlowKey with one and two records, ForAllExpiredFlowRecordsDo, ForAllRecordsDo, GetRecords with and without key, GetNumFlows, GetExpiryFromExpirePriorityQueue) is executed symbolically from bounded arbitrary states (0..1 flows quick, 0..2 thorough; symbolic records; deadlines passed or not; failing and succeeding callbacks) so that every feasible path, error paths included, is walked; every load, store and map operation on an object reachable from the process at entry is logged with the set of process mutexes held. The lockset rule is then applied across operations (each may run concurrently with every other and with itself): two accesses to one shared location, at least one a write, not both atomic, without a common lock = VIOLATION; also: a mutex still held at return, a mutex re-acquired while held, unlock of an unlocked mutex. With mutual exclusion trusted this gives atomic operations, hence linearizability with the lock acquisition as linearization point, and reduces 'no lost delta, no double export' to the sequential properties C05/C06. (b) Check_Linearizable runs PAIRS of operations in two goroutines under every interleaving of their synchronisation points (the scheduler choice at each mutex lock/unlock is a decision of the path explorer, bounded by a preemption budget) and compares the outcome with both sequential orders - this catches lost updates that are not data races (state captured under one critical section and used in another). NOT covered: more than two concurrent operations, preemption inside code between synchronisation points (covered by the lockset rule instead), the Go memory model, sync.RWMutex and the race detector are trusted; the worker pool enters only through the fact that every worker runs AggregateMsgByFlowKey.",
 		Assumptions: []string{"cooperative single-threaded execution; interleavings are not explored", "a breach is reported from the interpreter's access log (both access sites named); no native race-detector run is attempted"},
 		Harnesses: []HarnessSpec{
 			{Func: "Check_Operations", NoNative: true, Reach: []string{"operation-done"}, Tune: func(c *sym.Config, th bool) { c.ClockMode = "frozen" },
 				Bounds: "8 entry points x states of 0..1 (quick) / 0..2 (thorough) flows created by source-node, destination-node or intra-node records x symbolic counters and times x callbacks failing or not x deadlines passed or not"},
+			{Func: "Check_Linearizable", NoNative: true, Reach: []string{"compared"},
+				Tune: func(c *sym.Config, th bool) {
+					c.ClockMode = "frozen"
+					c.ExploreSchedules = true
+					c.MaxPreemptions = 3
+					if th {
+						c.MaxPreemptions = 5
+					}
+				},
+				Bounds: "pairs of operations in two goroutines: {ingest source record || ingest destination record, ingest || GetNumFlows+GetRecords, ingest || expiry scan after the deadlines} x flow existing before or not; EVERY interleaving of their synchronisation points (mutex lock/unlock, WaitGroup) with at most 3 (quick) / 5 (thorough) preemptions; symbolic counters; result compared with both sequential orders"},
 		},
 	},
 	{
 		ID: "C14", Pkg: "./c14", ReplayPkg: "./cmd/rc14", Level: "other",
-		Explanation: "PARTIAL. Decidable part: (1) lockset over the bodies each goroutine of an exporting process runs - application: SendSet (template, data, refusal paths) and NewTemplateID; UDP refresher: sendRefreshedTemplates (with failing and succeeding writes); TCP checker: checkConnToCollector followed by closeConnToCollector; anyone, repeatedly: CloseConnToCollector - every access to a field of the process logged with the mutexes held, conflicting accesses from roles that can run concurrently without a common lock and not both atomic = VIOLATION (the harness's fake net.Conn stands for a concurrency-safe socket and is excluded); (2) sequential contracts with symbolic contents: after j template sends one refresh writes exactly j messages, one Write each, byte-identical to the reference encoding of the original templates and never advancing the sequence number; after the peer closed (Read returns io.EOF) the check reports it, the connection is closed exactly once, a later SendSet returns an error and writes nothing; closing twice is a no-op; after close neither SendSet nor a refresh writes a byte. NOT decidable here and not claimed: the ticker loops themselves (closures inside InitExportingProcess), 'within the check interval', real timing and real scheduling.",
+		Explanation: "PARTIAL. Decidable part: (1) lockset over the bodies each goroutine of an exporting process runs - application: SendSet (template, data, refusal paths) and NewTemplateID; UDP refresher: sendRefreshedTemplates (with failing and succeeding writes); TCP checker: checkConnToCollector followed by closeConnToCollector; anyone, repeatedly: CloseConnToCollector - every access to a field of the process logged with the mutexes held, conflicting accesses from roles that can run concurrently without a common lock and not both atomic = VIOLATION (the harness's fake net.Conn stands for a concurrency-safe socket and is excluded); (2) sequential contracts with symbolic contents: after j template sends one refresh writes exactly j messages, one Write each, byte-identical to the reference encoding of the original templates and never advancing the sequence number; after the peer closed (Read returns io.EOF) the check reports it, the connection is closed exactly once, a later SendSet returns an error and writes nothing; closing twice is a no-op; after close neither SendSet nor a refresh writes a byte. (3) concurrent close from two goroutines under every interleaving of their synchronisation points within a preemption bound. NOT decidable here and not claimed: the ticker loops themselves (closures inside InitExportingProcess), 'within the check interval', real timing and real scheduling.",
 		Assumptions: []string{"cooperative single-threaded execution; interleavings are not explored; the race detector and Go memory model are trusted", "net.Conn contract: Write delivers all bytes or errors; after Close, Write/Read error; Read returns io.EOF when the peer closed"},
 		Harnesses: []HarnessSpec{
 			{Func: "Check_Lockset", NoNative: true, Reach: []string{"entry-point-done"}, Tune: func(c *sym.Config, th bool) { c.ClockMode = "wall" }, Bounds: "6 entry points x 0..2 templates already sent x write/peer outcomes"},
 			{Func: "Check_Contracts", Reach: []string{"refreshed", "peer-closed", "closed-twice"}, Tune: func(c *sym.Config, th bool) { c.ClockMode = "wall" }, Bounds: "0..3 templates sent, 0..2 data records sent, then one refresh / peer close + check + close / double close"},
+			{Func: "Check_ConcurrentClose", NoNative: true, Reach: []string{"both-returned"},
+				Tune: func(c *sym.Config, th bool) {
+					c.ClockMode = "wall"
+					c.ExploreSchedules = true
+					c.MaxPreemptions = 4
+					if th {
+						c.MaxPreemptions = 8
+					}
+				},
+				Bounds: "two goroutines closing at once (CloseConnToCollector || CloseConnToCollector, CloseConnToCollector || internal close of a background goroutine): EVERY interleaving of their synchronisation points (atomic operations, channel close, WaitGroup) with at most 4 (quick) / 8 (thorough) preemptions"},
 		},
 	},
 }
